@@ -1,2 +1,10 @@
-// harnesses for this module (filled in below)
+// Kani harnesses compiled as `crate::solve::external::verif_kani` (child of src/solve/external.rs).
 #![allow(dead_code, unused_imports, clippy::all)]
+
+// NOTE: a stub-driven harness for the real `solve_external_single` loop (the twin of
+// vanilla/driver.rs) is kept in external/xdriver.rs.disabled: CBMC's symbolic execution does not
+// get through the function's internal `.collect::<Box<[_]>>()` constructions (simplifier blow-up on
+// byte_extract over symbolic aggregates; > 15 min even for one infoset), so it is not part of any claim.
+
+#[path = "/verif/kani/external/steps.rs"]
+mod steps;
